@@ -1018,7 +1018,7 @@ pub fn main(tier: Tier) -> i32 {
         .and_then(|s| s.parse().ok())
         .unwrap_or(match tier {
             Tier::Quick => 300,
-            Tier::Thorough => 8000,
+            Tier::Thorough => 40_000,
         });
     let cases = all_cases(seed, n_random);
     let total = cases.len() as u64;
